@@ -219,3 +219,14 @@ theorem asAwaitable_eq (I : Obj ι) (w : W I.σ Unit) :
   · cases e <;> rfl
 
 end Asynkit.GenEqC01W
+
+namespace Asynkit.GenEqC01W
+open Asynkit.Proto Asynkit.Gen.CoroStart
+
+/-- `coro_await(coro)`: `cs = CoroStart(coro, context=context); return await cs` -/
+theorem coroAwait_eq {ι : Type} (I : Obj ι) :
+    ∃ w, coroAwaitEntry (rtW I) { c := I.init, F := (), sr := none } = .awaitSelf w ∧ csOf I w = CS.new I := by
+  obtain ⟨w, h1, h2⟩ := init_eq I
+  exact ⟨w, by simp [coroAwaitEntry, h1], h2⟩
+
+end Asynkit.GenEqC01W
